@@ -60,11 +60,21 @@ func runThrottled(c *Ctx, sh *shared, dir string) {
 	}
 	fail := func(what, sig string) { sh.violate(what, sig, rep(nil)) }
 	dirA, dirB := filepath.Join(dir, "a"), filepath.Join(dir, "b")
-	portB := freePort()
-	b := NewNode(c.Bin, "c05b-throttled", dirB, fmt.Sprintf("- tcp-listener:\n    port: %d\n", portB)+workCommandYAML(dirB))
-	if err := startNode(b); err != nil {
-		fail("node B does not start: "+err.Error(), "harness-start")
-		return
+	var b *Node
+	portB := 0
+	for try := 0; ; try++ { // a free port may have been taken by someone else by the time it is used
+		portB = freePort()
+		b = NewNode(c.Bin, "c05b-throttled", dirB, fmt.Sprintf("- tcp-listener:\n    port: %d\n", portB)+workCommandYAML(dirB))
+		err := startNode(b)
+		if err == nil {
+			break
+		}
+		b.Kill()
+		b.KillStrays()
+		if try == 2 {
+			fail("node B does not start: "+err.Error(), "harness-start")
+			return
+		}
 	}
 	defer func() { b.Stop(); b.KillStrays() }()
 	px, err := newProxy(fmt.Sprintf("127.0.0.1:%d", portB))
@@ -95,7 +105,7 @@ func runThrottled(c *Ctx, sh *shared, dir string) {
 	variants := []variant{
 		{"succeeded", plan{Name: "big-succeeded", Steps: []string{"w1500000"}}, false},
 		{"failed", plan{Name: "big-failed", Steps: []string{"w800000", "x3"}}, false},
-		{"canceled", plan{Name: "big-canceled", Steps: []string{"w800000", "h"}}, true},
+		{"canceled", plan{Name: "big-canceled", Steps: []string{"w1200000", "h"}}, true},
 	}
 	if os.Getenv("C05_THR") != "" { // development aid
 		for _, v := range variants {
@@ -105,14 +115,14 @@ func runThrottled(c *Ctx, sh *shared, dir string) {
 			}
 		}
 	}
-	for _, v := range variants {
+	runVariant := func(v variant, attempt int) bool {
 		full := v.pl.size()
 		want := pattern[:full]
 		info := map[string]interface{}{"variant": v.name, "plan": v.pl, "rate_bytes_per_s": rate}
 		unitA, _, err := Submit(a.Sock, map[string]interface{}{"node": b.ID, "worktype": "emit", "params": v.pl.params()}, nil, 30*time.Second)
 		if err != nil || unitA == "" {
 			sh.violate(fmt.Sprintf("remote submit failed: %v", err), "remote-submit", rep(info))
-			continue
+			return true
 		}
 		t0 := time.Now()
 		fileA := filepath.Join(a.UnitDir(unitA), "stdout")
@@ -168,7 +178,7 @@ func runThrottled(c *Ctx, sh *shared, dir string) {
 			}
 			if v.cancel && !cancelled && unitB != "" {
 				// once the remote command has printed everything (and hangs): cancel on the submitting node
-				if stB, errB := WorkStatus(b.Sock, unitB, 3*time.Second); errB == nil && stateOf(stB) == 1 && sizeOf(stB) == int64(full) && time.Since(t0) > 1200*time.Millisecond {
+				if stB, errB := WorkStatus(b.Sock, unitB, 3*time.Second); errB == nil && stateOf(stB) == 1 && sizeOf(stB) == int64(full) {
 					cancelled = true
 					cwg.Add(1)
 					go func() {
@@ -213,8 +223,8 @@ func runThrottled(c *Ctx, sh *shared, dir string) {
 		sh.mu.Lock()
 		im := sh.im
 		im.Evaluations += len(samples)
-		im.Count("throttled/"+v.name, sawFinalBehind)
-		im.Extra["throttled:"+v.name] = map[string]interface{}{"record_final_while_copy_at": finalBehindLocal, "seen": sawFinalBehind, "midway_at": midLocal, "midway_seen": sawMid,
+		im.Count(fmt.Sprintf("throttled/%s/%d", v.name, attempt), sawFinalBehind)
+		im.Extra[fmt.Sprintf("throttled:%s:%d", v.name, attempt)] = map[string]interface{}{"record_final_while_copy_at": finalBehindLocal, "seen": sawFinalBehind, "midway_at": midLocal, "midway_seen": sawMid,
 			"converged": converged, "wall": time.Since(t0).Round(100 * time.Millisecond).String(), "local_state": stateOf(finalA), "readers": len(readers)}
 		switch {
 		case sawFinalBehind && sawMid:
@@ -236,7 +246,7 @@ func runThrottled(c *Ctx, sh *shared, dir string) {
 			ri := rep(info)
 			ri["moment"], ri["p"], ri["got"], ri["ended"], ri["asked_at"], ri["ended_at"] = r.Moment, r.P, len(r.Got), r.Ended, r.TAsk.String(), r.TEnd.String()
 			ri["local_copy_when_asked"], ri["local_copy_when_ended"], ri["record_when_ended"] = r.AtLocal, r.EndLocal, fmt.Sprintf("state %d size %d", r.EndState, r.EndSize)
-			im.Count(fmt.Sprintf("throttled/%s/%s/%d", v.name, r.Moment, r.P), r.AtLocal < int64(full))
+			im.Count(fmt.Sprintf("throttled/%s/%d/%s/%d", v.name, attempt, r.Moment, r.P), r.AtLocal < int64(full))
 			im.Hist("moment:" + r.Moment)
 			wantP := want[r.P:]
 			switch {
@@ -264,6 +274,16 @@ func runThrottled(c *Ctx, sh *shared, dir string) {
 				sh.rc.Add(fmt.Sprintf("CR (RMCase %d %s %s %s %s)", r.P, CoqList(pre), CoqList(post), coqBytes(r.Got, r.P), CoqBool(r.Ended)),
 					fmt.Sprintf("results of a mirrored unit over a %d bytes/s link: variant=%s moment=%s p=%d local-copy-when-asked=%d got=%d ended=%v", rate, v.name, r.Moment, r.P, r.AtLocal, len(r.Got), r.Ended))
 				sh.mu.Unlock()
+			}
+		}
+		return sawFinalBehind
+	}
+	for _, v := range variants {
+		// the moment "record final, copy short" depends on the order in which the remote node's
+		// answers arrive: a run that missed it is repeated once
+		for attempt := 0; attempt < 2; attempt++ {
+			if runVariant(v, attempt) {
+				break
 			}
 		}
 	}
